@@ -144,7 +144,7 @@ def opTrace (name : String) (d : List UInt8) (bs : Nat) (kind : StoreKind) (rang
       | .parent node _ _ _ _ =>
         [⟨"ob", s!"load_{node}", some (true, node)⟩] ++
         -- io backed sync stores read the pair from their backing: one positional read per load
-        (if name.endsWith "-sync" && (kind == .preIo || kind == .postIo) then
+        (if (kind == .preIo || kind == .postIo) then
           match st.slot node with
           | some k => [(⟨"obio", s!"read_at_{k * 64}_64", some (true, node)⟩ : Ev)]
           | none => []
@@ -173,14 +173,28 @@ def opTrace (name : String) (d : List UInt8) (bs : Nat) (kind : StoreKind) (rang
     (tree.responseChunks tr).map fun plan => plan.flatMap fun c =>
       match c with
       | .parent node _ _ _ _ =>
-        [⟨"r", "read_64", some (true, node)⟩] ++ (if tree.isRelevant node && kind != .empty then [(⟨"ob", s!"save_{node}", none⟩ : Ev)]
-          else if tree.isRelevant node then [⟨"ob", s!"save_{node}", none⟩] else [])
+        [⟨"r", "read_64", some (true, node)⟩] ++
+        (if tree.isRelevant node then
+          [(⟨"ob", s!"save_{node}", none⟩ : Ev)] ++
+          -- io backed sinks write the pair to their backing: one positional write per save
+          (if kind == .preIo || kind == .postIo then
+            match st.slot node with
+            | some k => [(⟨"obio", s!"write_at_{k * 64}_64", none⟩ : Ev)]
+            | none => []
+           else [])
+         else [])
       | .leaf start size _ _ =>
         [⟨"r", s!"read_{size}", some (false, start)⟩, ⟨"t", s!"write_at_{start * 1024}_{size}", none⟩]
   | "ob-sync" | "ob-fsm" =>
     some (tree.postOrderChunks.flatMap fun c =>
       match c with
-      | .parent node _ _ _ _ => [(⟨"ob", s!"save_{node}", none⟩ : Ev)]
+      | .parent node _ _ _ _ =>
+        [(⟨"ob", s!"save_{node}", none⟩ : Ev)] ++
+        (if kind == .preIo || kind == .postIo then
+          match st.slot node with
+          | some k => [(⟨"obio", s!"write_at_{k * 64}_64", none⟩ : Ev)]
+          | none => []
+         else [])
       | .leaf _ size _ _ => [⟨"data", s!"read_{size}", none⟩])
   | "obpo-sync" | "obpo-fsm" =>
     some (tree.postOrderChunks.flatMap fun c =>
@@ -200,11 +214,10 @@ def opTrace (name : String) (d : List UInt8) (bs : Nat) (kind : StoreKind) (rang
 
 /-- objects of an operation in the order the harness lists them -/
 def opObjs (name : String) : List String :=
-  if name == "encv-sync" || name == "encp-sync" then ["data", "ob", "w", "obio"]
-  else if name.startsWith "enc" then ["data", "ob", "w"]
+  if name.startsWith "enc" then ["data", "ob", "w", "obio"]
   else if name == "mixed" then ["data", "ob", "s"]
-  else if name.startsWith "decr" then ["r", "t", "ob"]
-  else if name.startsWith "ob-" then ["data", "ob"]
+  else if name.startsWith "decr" then ["r", "t", "ob", "obio"]
+  else if name.startsWith "ob-" then ["data", "ob", "obio"]
   else if name.startsWith "obpo" then ["data", "w"]
   else if name.startsWith "copy" then ["from", "to"]
   else ["ob", "data"]
